@@ -299,6 +299,18 @@ func checkEnvelope(c *core.Ctx, rq *c07Req, res map[string]interface{}, cfgName 
 					default:
 						c.Count("locations_in_bounds")
 					}
+					// an error without a path in a request whose ONE defect is a directive use on the selection aliased dfx: the
+					// offending token is one of that selection's tokens (it is the last of its set: it ends before the brace that
+					// closes the set)
+					if strings.HasPrefix(rq.Kind, "defect:") && strings.HasSuffix(rq.Kind, "-directive") && len(path) == 0 {
+						if lo, hi := c07DefectLines(rq.Text); lo > 0 {
+							if line < lo || line > hi {
+								bad("location", "wrong-line", fmt.Sprintf("the defective selection spans lines %d-%d, the error is reported at line %d column %d", lo, hi, line, col))
+							} else {
+								c.Count("locations_on_token_line")
+							}
+						}
+					}
 					// line of the offending token for errors that address a rendered selection
 					if rq.Doc != nil && len(path) > 0 {
 						var op *world.Op
@@ -737,4 +749,29 @@ func runC07(c *core.Ctx) {
 	if !completed {
 		c.Cap("deadline reached")
 	}
+}
+
+// c07DefectLines: first and last line of the selection aliased dfx in text (0, 0 if it is not there exactly once).
+func c07DefectLines(text string) (lo, hi int) {
+	i := strings.Index(text, "dfx")
+	if i < 0 || strings.Count(text, "dfx") != 1 {
+		return 0, 0
+	}
+	depth, end := 0, -1
+	for j := i; j < len(text) && end < 0; j++ {
+		switch text[j] {
+		case '{':
+			depth++
+		case '}':
+			if depth == 0 {
+				end = j
+			}
+			depth--
+		}
+	}
+	if end < 0 {
+		return 0, 0
+	}
+	last := strings.TrimRight(text[:end], " \t\r\n,")
+	return 1 + strings.Count(text[:i], "\n"), 1 + strings.Count(last, "\n")
 }
